@@ -428,6 +428,27 @@ def stepLine (_ : Unit) (ws : List String) : Unit × String :=
     match cfgOf (natOf client) with
     | none => bad i
     | some cfg => ((), i ++ " " ++ runLates cfg (natOf k) shape)
+  | ["gap", i, client, how] =>
+    -- call 1 gives up (timeout / cancel + cleanup) between the two halves of call 0's response: in the model
+    -- the frame is one `rmatch`, abandoning another call does not touch it
+    match cfgOf (natOf client) with
+    | none => bad i
+    | some cfg =>
+      let s := [Ev.alloc 0, .register 0, .write 0, .alloc 1, .register 1, .write 1].foldl (step cfg) State.init
+      let s := [if how == "tmo" then Ev.timeout 1 else Ev.cancel 1, .cleanup 1].foldl (step cfg) s
+      let s := [Ev.rmatch { id := (s.calls 0).id, notify := false, tag := 0 }, .deliver, .recv 0,
+                Ev.rmatch { id := (s.calls 1).id, notify := false, tag := 1 }, .deliver].foldl (step cfg) s
+      let s := [Ev.alloc 2, .register 2, .write 2].foldl (step cfg) s
+      let s := [Ev.rmatch { id := (s.calls 2).id, notify := false, tag := 2 }, .deliver, .recv 2].foldl (step cfg) s
+      let sh (c : Nat) : String := match (s.calls c).pc with
+        | .returned (.resp f) => if f.tag == c then "own" else "Err"
+        | .returned _ => "Err"
+        | _ => "HANG"
+      ((), i ++ " got " ++ sh 0 ++ " later " ++ sh 2)
+  | ["mstallfrag", i, client, _ms] =>
+    match cfgOf (natOf client) with
+    | none => bad i
+    | some cfg => ((), i ++ (if runSeq cfg 2 == "ok 2" then " got own,own" else " bad"))
   | ["stallfrag", i, client, _ms] =>
     -- how long the pieces of a frame take to arrive is no event of the model: both calls are served
     match cfgOf (natOf client) with
